@@ -331,14 +331,30 @@ async def _run_case(case, max_concurrent=1):
             bar_index_by_id[id(ev)] = i
             evs.append(ev)
         srcs.append((pair, core_event.FifoQueueEventSource(events=evs), evs))
+    async def passive_subscriber(ev):
+        return None
+
+    def subscribe_pair(pi, pair):
+        # some pairs have a second, passive subscriber (a logger) registered before the strategy's handler
+        if pi in case.get("extra_subs", []):
+            e.subscribe_to_bar_events(pair, passive_subscriber)
+        e.subscribe_to_bar_events(pair, make_handler(pi))
+
     if case.get("subscribe_first", False):
         for pi, pair in enumerate(pairs):
-            e.subscribe_to_bar_events(pair, make_handler(pi))
-    for pair, src, _ in srcs:
-        e.add_bar_source(src)
+            subscribe_pair(pi, pair)
+    if case.get("merged_source", False):
+        # one feed carrying the bars of every pair (events of one source: non-decreasing in time, ties kept in case order)
+        allev = sorted((ev for _, _, evs in srcs for ev in evs), key=lambda ev: (ev.when, bar_index_by_id[id(ev)]))
+        merged = core_event.FifoQueueEventSource(events=allev)
+        srcs.append((None, merged, allev))
+        e.add_bar_source(merged)
+    else:
+        for pair, src, _ in srcs:
+            e.add_bar_source(src)
     if not case.get("subscribe_first", False):
         for pi, pair in enumerate(pairs):
-            e.subscribe_to_bar_events(pair, make_handler(pi))
+            subscribe_pair(pi, pair)
     e.subscribe_to_order_events(on_order_event)
     d.subscribe_all(post_sniffer, front_run=False)
     try:
